@@ -184,6 +184,11 @@ MarkDec(u, ks, S) ==
     [ks EXCEPT !.r.rows = {IF r.key \in S /\ r.set = OkSet THEN [r EXCEPT !.dec = TRUE] ELSE r : r \in ks.r.rows},
                !.m.regs = {IF EvSlot(r.key) \in S /\ u.trset[EvSlot(r.key) - NI] = OkSet THEN [r EXCEPT !.dec = TRUE] ELSE r : r \in ks.m.regs}]
 
+(* FALSE: the code as it is - the keys message DecryptionKeySharesHandler.HandleMessage builds is sent
+   raw and sets no flag at its publisher.  TRUE: named alternative, after the proposed change
+   /verif/out/fixes/SVC-1.diff (updateEventFlag where that message is built). *)
+FlavourKeysFlag == FALSE
+
 (* a packet reaches keyper j: the combined topic validator, then P2PMessaging.Handle (flavour
    handler, core handler).  The decrypted flags are set by the service DecryptionKeysHandler for
    every received keys message and by interceptDecryptionKeys when the core share handler's keys
@@ -193,7 +198,7 @@ SvcDeliver(u, ks, nd, j, m) ==
     IF v # "accept" THEN [ks |-> ks, nd |-> nd, out |-> <<>>, v |-> v]
     ELSE LET a == IF m.t = "shares" THEN G!FlavourHandleShares(nd, j, m) ELSE G!FlavourHandleKeys(nd, j, m)
              b == IF m.t = "shares" THEN G!CoreHandleShares(a.nd, j, m) ELSE G!CoreHandleKeys(a.nd, j, m)
-             flag == IF m.t = "keys" THEN TRUE ELSE b.out # <<>>
+             flag == IF m.t = "keys" THEN TRUE ELSE b.out # <<>> \/ (FlavourKeysFlag /\ a.out # <<>>)
          IN [ks |-> IF flag THEN MarkDec(u, ks, G!IdsOf(m.r)) ELSE ks, nd |-> b.nd, out |-> a.out \o b.out, v |-> "accept"]
 
 (* who has sent shares for list r: a keyper's own signature row is written exactly when its shares
